@@ -1,7 +1,7 @@
 (* C11 — sanity runs of the model and non-vacuity of the theorems' hypotheses *)
 From Coq Require Import ZArith List Bool Arith Lia.
 Import ListNotations.
-From GV Require Import Common.Wire C11.Model C11.Lemmas.
+From GV Require Import Common.Wire C11.Model C11.Lemmas gen.Gen_joins C11.GenLink.
 Open Scope Z_scope.
 
 Definition ustr (w : nat) (cps : list Z) : cell := Cell KStr (4 * w) (bytes_of_cps (pad0 w cps)).
@@ -130,4 +130,27 @@ Example wire_run :
                  T 0 [T 1 [leaf 0; leaf 1; T 0 [leaf 0]; T 0 [leaf 0]]];
                  T 0 [T 0 [leaf 0; T 0 []; T 0 [T 0 []; T 1 [leaf 1]]]]])
   = T 0 [zs [0]; enc_joins [[(1%nat, ([0%nat], [0%nat]))]; [(0%nat, ([0%nat], [0%nat]))]]; T 0 [T 1 [leaf 1]]].
+Proof. vm_compute. reflexivity. Qed.
+
+(* ------------------------------------------------------------------ round 4: JoinLink on shared ComponentIDs, translated code *)
+(* a catalogue, a table extracted from it (its key column is stored under the catalogue's id, uid 0, parent 0), observations *)
+Definition ts_cat : list table :=
+  [ [[i64 10]; [i64 11]; [i64 12]]; [[i64 11]; [i64 12]]; [[i64 12]; [i64 12]; [i64 10]; [i64 11]] ].
+Definition L_cat : layout := [ [0%nat]; [0%nat]; [1%nat] ].
+Definition l_cat : jlink := JLink 2 1 [Cid 1 2] [Cid 0 0].
+(* the hypotheses of link_both_directions / unlink_restores are met *)
+Example link_accepted : snd (add_link L_cat (map (fun _ => []) ts_cat) l_cat) = 0 /\ data1 l_cat <> data2 l_cat /\
+  link_okb ts_cat L_cat l_cat = true /\ layout_okb ts_cat L_cat = true.
+Proof. repeat split; try (vm_compute; reflexivity). vm_compute. discriminate. Qed.
+Example link_then_unlink :
+  remove_link L_cat (fst (add_link L_cat (map (fun _ => []) ts_cat) l_cat)) l_cat = ([[]; []; []], 0).
+Proof. vm_compute. reflexivity. Qed.
+(* the translated add_link on the same input, and the translated recursion on the 3-cycle with a self-join *)
+Example gen_link_run : gen_add_link L_cat (map (fun _ => []) ts_cat) l_cat = add_link L_cat (map (fun _ => []) ts_cat) l_cat.
+Proof. vm_compute. reflexivity. Qed.
+Example gen_cycle_run : gen_get_mask_top S_cycle 0 None = (Incompatible, []).
+Proof. vm_compute. reflexivity. Qed.
+Example gen_chain_run :
+  fst (gen_get_mask_top (Sys [t0; t1; t2] js_chain [None; None; Some [true; false]]) 0 None) =
+  get_mask_top (Sys [t0; t1; t2] js_chain [None; None; Some [true; false]]) 0 None.
 Proof. vm_compute. reflexivity. Qed.
